@@ -78,6 +78,32 @@ BrkTokensIdx(s) ==
 BrkTokens(s) == LET ix == BrkTokensIdx(s) IN [k \in 1..Len(ix) |-> SubSeq(s, ix[k][1], ix[k][2])]
 
 ---------------------------------------------------------------------------
+(* integer texts (Go ints travel as decimal text: TLC integers are 32-bit, and int <-> text is strconv's job) *)
+Digits == 48..57
+IsDigits(s) == s # <<>> /\ \A i \in 1..Len(s) : s[i] \in Digits
+
+\* strconv.Atoi syntax (range is not modelled: drivers stay inside int64)
+AtoiSyntax(s) == IF s # <<>> /\ s[1] \in {PLUS, MINUS} THEN IsDigits(Tail(s)) ELSE IsDigits(s)
+
+RECURSIVE StripZeros(_)
+StripZeros(d) == IF Len(d) > 1 /\ d[1] = 48 THEN StripZeros(Tail(d)) ELSE d
+
+\* the canonical text of the integer a syntactically valid text denotes
+CanonInt(s) ==
+  LET neg == s[1] = MINUS
+      d   == StripZeros(IF s[1] \in {PLUS, MINUS} THEN Tail(s) ELSE s)
+  IN IF neg /\ d # <<48>> THEN <<MINUS>> \o d ELSE d
+
+IsCanonInt(s) == AtoiSyntax(s) /\ CanonInt(s) = s
+
+
+LexLess(a, b) ==      \* bytewise string order (sort.Strings)
+  \E k \in 1..(Len(a) + 1) :
+     /\ \A i \in 1..(k - 1) : i <= Len(b) /\ a[i] = b[i]
+     /\ IF k = Len(a) + 1 THEN Len(b) > Len(a) ELSE (k <= Len(b) /\ a[k] < b[k])
+
+
+---------------------------------------------------------------------------
 (* all byte strings over an alphabet up to a length *)
 RECURSIVE StringsUpTo(_, _)
 StringsUpTo(S, n) == IF n = 0 THEN { <<>> }
